@@ -2,18 +2,15 @@
 VARIANT = "san"
 RULE = "see stats"
 PARTIAL = [
-    "universal optimality (t1d_optimal_full_statement): proved per instance through the verified certificate "
-    "(cert_optimal_1d, FULL: weak duality + complementary slackness); the driver evaluates the same certOk on the model's "
-    "plan for every `cert` op (all cases up to 6x6 and every 4th larger one; potentials from an untrusted Bellman-Ford) and "
-    "the harness compares the real plan's cost with an independent exact optimum (non-crossing DP over unit supplies/slots)",
-    "validity of the plan for all inputs (t1d_valid_full_statement): proved up to the positions (no out-of-range access in the "
-    "sweep/flush, source intervals ordered, disjoint, inside [0, total demand]); the merge of computeSolution and "
-    "convertSolutionBack are covered by the direct oracle on every case and by validPlan inside every `cert ok`",
-    "unsplit sources (t1d_unsplit_kept_full_statement): proved on the instance handed to the solver for all inputs "
-    "(t1d_unsplit_kept_partial: a source whose interval lies inside one sink's interval is assigned that sink); "
-    "'single plan entry => containment' (merge of computeSolution) and the sorter's index maps are covered by the direct oracle",
-    "termination of the while loop of Transportation1dSolver::push: the model takes fuel and t1d_assign_safe/t1d_valid_partial "
-    "leave `outOfFuel` open; the stream runs with fuel 10^6 and a 900 s watchdog on the real code and never sees it",
+    "universal optimality (t1d_optimal_full_statement) is the only clause not proved for all inputs.  Proved for all inputs: "
+    "with total supply = total demand (the output of balanceDemand whenever supply exceeded demand) solve returns a plan of "
+    "minimum cost (t1d_optimal_balanced: explicit Kantorovich potential passes certOk); with slack (demand > supply) "
+    "t1d_optimal_partial proves that solve returns a valid plan which is of minimum cost whenever it passes the verified "
+    "certificate (cert_optimal_1d, FULL: weak duality + complementary slackness) - that potentials exist for every input with "
+    "slack (the correctness of the event sweep as an optimiser of the positions) is not proved.  Instead the driver evaluates "
+    "the same certOk on the model's plan for every `cert` op (all cases up to 6x6 and every 4th larger one; potentials from an "
+    "untrusted Bellman-Ford) and the harness compares the real plan's cost with an independent exact optimum (non-crossing "
+    "DP over unit supplies/slots)",
     "solver.check()/checkSolutionValid()/checkSolutionOptimal() inside solve() are not modelled: any throw on a valid "
     "instance is an oracle failure and a correspondence mismatch (F11 lived there and is covered by UBSan on every case)",
 ]
@@ -24,11 +21,16 @@ ASSUMPTIONS = [
     "std::upper_bound/lower_bound on the sorted sink positions modelled as the length of the takeWhile prefix",
     "balanceDemand() with no sink and a deficit divides by zero in the C++ (model: Err.divByZero); not generated, outside the property's domain",
 ]
-LEVEL_TEXT = ("Lean 4 theorems over an executable, bounds-checked model of Transportation1d/Sorter/Solver: memory safety of assign() "
-              "for every input of the domain (zeros included, after the repair of F10), balanceDemand, and a verified optimality "
-              "certificate (weak duality); the model is tied to the C++ by an exhaustive small-bound + random (positions to 1e8) "
-              "differential stream under ASan/UBSan; validity, optimality (independent exact optimum) and the rounding clauses are "
-              "additionally evaluated by a direct oracle on every generated instance")
+LEVEL_TEXT = ("Lean 4 theorems over an executable, bounds-checked model of Transportation1d/Sorter/Solver, all for every input of the "
+              "domain (zeros included, after the repair of F10): solve() never errors and returns a valid plan (t1d_valid: sweep "
+              "invariants, termination of the while loop of push within the model's fuel, interval geometry, two-pointer merge of "
+              "computeSolution, sorter index maps); assign() never errors, one positive-demand sink per source (t1d_assign_safe); "
+              "a source the plan does not split is assigned exactly the plan's sink (t1d_unsplit_kept); balanceDemand; and a verified "
+              "optimality certificate (weak duality), instantiated for every input with supply = demand (t1d_optimal_balanced) and evaluated "
+              "per instance otherwise - universal optimality with slack is the one clause left partial; "
+              "the model is tied to the C++ by an exhaustive small-bound + random (positions to 1e8) differential stream under "
+              "ASan/UBSan; validity, optimality (independent exact optimum) and the rounding clauses are additionally evaluated by a "
+              "direct oracle on every generated instance")
 LEVEL_NOTE = ("Trusted: Lean kernel (axioms propext/Classical.choice/Quot.sound only), the hand-written model's tie to the code "
               "(differential, bounded by the generator), unbounded Int for long long, list models of priority_queue/sort/bounds.")
-TECHNIQUE = "Lean 4 proof (invariants of the sweep, LP weak duality) + model/implementation correspondence stream + per-instance certificate"
+TECHNIQUE = "Lean 4 proof (sweep invariants + termination measure, interval merge, permutation index maps, LP weak duality, Kantorovich potential for the balanced case) + model/implementation correspondence stream + per-instance optimality certificate"
